@@ -133,9 +133,24 @@ class WorkRoles:
                 out.append(f)
         return out
 
+    _SOME = (("variant", "Some"), ("field", 0))
+
     def _is_ts(self, f, op):
+        """The remembered timestamp (param .. .timestamp), bare or wrapped in `Some(..)`
+        (`modified(path) == Some(state.timestamp)`)."""
         org = f.origins_of_operand(op)
-        return org and all(o[0][0] == "param" and o[-1] == ("field", "timestamp") for o in org)
+        if org and all(o[0][0] == "param" and o[-1] == ("field", "timestamp") for o in org):
+            return True
+        org = f._op_origins(op, self._SOME, frozenset())
+        return bool(org) and all(o[0][0] == "param" and o[-1] == ("field", "timestamp") for o in org)
+
+    def ts_other_origins(self, f, d):
+        """For a comparison with the remembered timestamp on one side: origins of the other
+        side (unwrapped if the comparison is between Options)."""
+        ts, other = (d["a"], d["b"]) if self._is_ts(f, d["a"]) else (d["b"], d["a"])
+        direct = f.origins_of_operand(ts)
+        wrapped = not (direct and all(o[0][0] == "param" and o[-1] == ("field", "timestamp") for o in direct))
+        return f._op_origins(other, self._SOME if wrapped else (), frozenset())
 
     def timestamp_cmp_any(self, f):
         for bb in f.live:
